@@ -265,7 +265,44 @@ def standard_proof_step(res, pid):
         res.violation({"property": pid, "kind": "proof-break", "theorem_or_correspondence": "Properties/%s.v" % pid,
                        "detail": pr["log"][-3000:]}, nofail=True)
         return False
+    if res.tier == "thorough":
+        ck = coqchk_all()
+        res.obligation("coqchk -silent -o over all Properties modules and their dependencies (independent checker)", ck["ok"])
+        res.coverage["coqchk"] = {k: ck[k] for k in ("ok", "axioms", "seconds", "modules")}
+        res.assumptions.append("coqchk axioms: %s" % (ck["axioms"] or "?"))
+        if not ck["ok"]:
+            res.violation({"property": pid, "kind": "proof-break", "theorem_or_correspondence": "coqchk", "detail": ck["tail"]}, nofail=True)
+            return False
     return True
+
+
+def coqchk_all():
+    """thorough tier: re-check every compiled file of the development (and everything it depends on) with the independent
+    checker, once per set of .vo files (cached by their hash, behind a lock)."""
+    h = hashlib.sha256()
+    vos = []
+    for d, _, fs in os.walk(COQ):
+        if os.path.basename(d) == "gen":
+            continue
+        for f in sorted(fs):
+            if f.endswith(".vo"):
+                vos.append(os.path.join(d, f))
+    for f in sorted(vos):
+        h.update(open(f, "rb").read())
+    key = h.hexdigest()[:16]
+    cache = os.path.join(BUILD, "coqchk_%s.json" % key)
+    with Lock("coqchk.lock"):
+        if os.path.exists(cache):
+            return json.load(open(cache))
+        mods = ["NIPAM.Properties." + os.path.basename(f)[:-3] for f in vos if os.path.basename(os.path.dirname(f)) == "Properties"]
+        rc, out, dt = sh(["timeout", "3000", "coqchk", "-silent", "-o", "-Q", ".", "NIPAM"] + sorted(mods), cwd=COQ, timeout=3100, check=False)
+        ax = ""
+        m = re.search(r"\* Axioms:(.*?)\n\s*\n\* Constants", out, re.S)
+        if m:
+            ax = " ".join(m.group(1).split())
+        r = {"ok": rc == 0, "axioms": ax, "seconds": round(dt), "modules": len(mods), "tail": out[-1500:]}
+        json.dump(r, open(cache, "w"))
+        return r
 
 
 def build_executors(res, pid, race=False):
